@@ -48,8 +48,7 @@ def run(ctx):
             ctx.violation("impl-violates-spec", "query failed", input={"q0": c["q0"], "q1": c["q1"]})
             continue
         m = len(rows0)
-        root = os.path.basename(c["root"])
-        tail = "from %s %s %s" % (root, c["trav"], c["where"])
+        tail = c["tail"]          # the same FROM clause (possibly several roots) as the unlimited runs
         for n in list(range(1, min(m, 40) + 3)) + [0]:
             jobs.append((c, n, True, tail))
             jobs.append((c, n, False, tail))
